@@ -37,15 +37,26 @@ def lex_part(run, tier):
         bare, _, _ = translate(no_wrap_identifier_regex.pattern, False)
         idx = M.index_of('ID')
         id_re = M.rules[idx][2]
-        # A1: bare identifier words captured by an earlier rule (derived to exhaustion, one rule at a time)
+        # A1: printed-bare words of which an earlier rule captures a PREFIX (first-match tokenisation: the rule needs to match
+        # at position 0 only; its trailing \\b must fall on a word/non-word border inside or at the end of the word).
+        # Derived to exhaustion, one rule at a time, blocking the captured prefix case-insensitively.
+        from engines.lexz3 import WORD, ASCII
+        anyc = z3.Star(ASCII)
+        x, y = z3.String('x'), z3.String('y')
         collisions, exhausted = [], True
         for name, pat, r, lb, tb in M.rules[:idx]:
             if r is None or name.startswith('ignore'):
                 continue
             blocked = []
             for it in range(80):
-                cs = [z3.InRe(w, bare), z3.InRe(w, r), z3.Length(w) <= maxlen] + \
-                     [z3.Not(z3.InRe(w, translate(re.escape(b), True)[0])) for b in blocked]
+                cs = [w == z3.Concat(x, y), z3.InRe(w, bare), z3.Length(w) <= maxlen, z3.Length(x) >= 1, z3.InRe(x, r)]
+                if lb:
+                    cs.append(z3.InRe(x, z3.Concat(WORD, anyc)))
+                if tb:
+                    last_word = z3.InRe(x, z3.Concat(anyc, WORD))
+                    next_word = z3.And(y != z3.StringVal(''), z3.InRe(y, z3.Concat(WORD, anyc)))
+                    cs.append(z3.Xor(last_word, next_word))
+                cs += [z3.Not(z3.InRe(x, translate(re.escape(b), True)[0])) for b in blocked]
                 res, m = M.check(*cs)
                 if res == 'unsat':
                     break
@@ -53,9 +64,9 @@ def lex_part(run, tier):
                     exhausted = False
                     run.ob('lexz3:%s:collision:%s' % (d, name), 'inconclusive', res)
                     break
-                word = m[w].as_string()
-                blocked.append(word)
-                if word.upper() not in reserved:
+                word, prefix = m[w].as_string(), m[x].as_string()
+                blocked.append(prefix)
+                if not (word == prefix and word.upper() in reserved):
                     collisions.append((name, word))
             else:
                 exhausted = False
